@@ -122,6 +122,7 @@ impl ThreadGroup {
         for pool in records.pools.drain() {
             pool.shut_down_without_removing();
         }
+        verif_emit!("GShutDown", &[("tc", records.thread_count as i64)]);
         self.shutdown_wakeup.notify_all();
     }
 
@@ -136,6 +137,7 @@ impl ThreadGroup {
             .shutdown_wakeup
             .wait_while(records, |r| !r.shutting_down || r.thread_count > 0)
             .unwrap();
+        verif_emit!("GAwaited", &[("tc", _guard.thread_count as i64)]);
     }
 
     /// Waits for shutdown of the `ThreadGroup` to start (i.e., for
@@ -173,6 +175,7 @@ where
     F: FnOnce() + Send + 'static,
 {
     records.thread_count += 1;
+    verif_emit!("GStart", &[("tc", records.thread_count as i64)]);
     let handle = OneshotHandle {
         group,
         parent: thread::current().id(),
@@ -244,6 +247,7 @@ where
     F: Fn() + Send + Sync + 'static,
 {
     records.thread_count += 1;
+    verif_emit!("GStartR", &[("tc", records.thread_count as i64)]);
     let handle = RespawnableHandle {
         group,
         parent: thread::current().id(),
@@ -335,6 +339,7 @@ where
 /// Performs clean-up actions when a thread exits.
 fn end_thread(records: &mut MutexGuard<GroupRecords>, shutdown_wakeup: &Condvar) {
     records.thread_count -= 1;
+    verif_emit!("GEnd", &[("tc", records.thread_count as i64), ("sd", records.shutting_down as i64)]);
     if records.shutting_down && records.thread_count == 0 {
         shutdown_wakeup.notify_all();
     }
@@ -442,14 +447,18 @@ impl ThreadPool {
         let mut records = self.records.lock().unwrap();
         loop {
             if records.shutting_down {
+                verif_emit!("SReject", &[]);
                 return Err(Error::ShuttingDown);
             } else if records.available_workers > records.queue.len() {
                 break;
             }
+            verif_emit!("SWait", &[("avail", records.available_workers as i64), ("qlen", records.queue.len() as i64)]);
             records = self.available_wakeup.wait(records).unwrap();
+            verif_emit!("SWoken", &[]);
         }
         records.queue.push_back(Box::new(task));
         self.task_wakeup.notify_one();
+        verif_emit!("SPush", &[("avail", records.available_workers as i64), ("qlen", records.queue.len() as i64)]);
         Ok(())
     }
 
@@ -461,11 +470,14 @@ impl ThreadPool {
         F: FnOnce() + Send + 'static,
     {
         let mut records = self.records.lock().unwrap();
+        verif_emit!("SosLocked", &[]);
         if records.shutting_down {
+            verif_emit!("SReject", &[]);
             Err(Error::ShuttingDown)
         } else if records.available_workers > records.queue.len() {
             records.queue.push_back(Box::new(task));
             self.task_wakeup.notify_one();
+            verif_emit!("SPush", &[("avail", records.available_workers as i64), ("qlen", records.queue.len() as i64)]);
             Ok(())
         } else {
             // No pooled worker is available, so we create a one-shot
@@ -474,6 +486,7 @@ impl ThreadPool {
             // other tasks to run (with the configured timeout).
             let id = records.next_auxiliary_id;
             records.next_auxiliary_id += 1;
+            verif_emit!("SosSpawn", &[("aux", id as i64), ("avail", records.available_workers as i64), ("qlen", records.queue.len() as i64)]);
             drop(records);
             let name = format!("{} auxiliary worker {}", self.name, id);
             if self.linger_timeout.is_zero() {
@@ -505,6 +518,7 @@ impl ThreadPool {
     fn shut_down_without_removing(&self) {
         let mut records = self.records.lock().unwrap();
         records.shutting_down = true;
+        verif_emit!("PShutDown", &[("avail", records.available_workers as i64), ("qlen", records.queue.len() as i64)]);
         self.task_wakeup.notify_all();
         self.available_wakeup.notify_all();
     }
@@ -547,10 +561,12 @@ fn pool_worker_loop(pool: Arc<ThreadPool>, timeout: Option<Duration>) {
         let mut records = pool.records.lock().unwrap();
         records.available_workers += 1;
         pool.available_wakeup.notify_one();
+        verif_emit!("WTop", &[("avail", records.available_workers as i64), ("qlen", records.queue.len() as i64)]);
         loop {
             if !records.queue.is_empty() {
                 break;
             } else if records.shutting_down {
+                verif_emit!("WSdExit", &[("avail", records.available_workers as i64), ("qlen", records.queue.len() as i64)]);
                 return;
             }
             records = if let Some(deadline) = deadline {
@@ -559,25 +575,32 @@ fn pool_worker_loop(pool: Arc<ThreadPool>, timeout: Option<Duration>) {
                     None => {
                         // The deadline has already passed.
                         records.available_workers -= 1;
+                        verif_emit!("WDeadline", &[("avail", records.available_workers as i64), ("qlen", records.queue.len() as i64)]);
                         return;
                     }
                 };
+                verif_emit!("WWait", &[("avail", records.available_workers as i64), ("qlen", records.queue.len() as i64)]);
                 let (mut records, wait_result) = pool
                     .task_wakeup
                     .wait_timeout(records, time_to_deadline)
                     .unwrap();
+                verif_emit!("WWoken", &[("to", wait_result.timed_out() as i64), ("avail", records.available_workers as i64), ("qlen", records.queue.len() as i64)]);
                 if wait_result.timed_out() {
                     records.available_workers -= 1;
+                    verif_emit!("WTimeoutExit", &[("avail", records.available_workers as i64), ("qlen", records.queue.len() as i64)]);
                     return;
                 } else {
                     records
                 }
             } else {
+                verif_emit!("WWait", &[("avail", records.available_workers as i64), ("qlen", records.queue.len() as i64)]);
                 pool.task_wakeup.wait(records).unwrap()
             };
+            if deadline.is_none() { verif_emit!("WWoken", &[("to", 0), ("avail", records.available_workers as i64), ("qlen", records.queue.len() as i64)]); }
         }
         let task = records.queue.pop_front().unwrap();
         records.available_workers -= 1;
+        verif_emit!("WTake", &[("avail", records.available_workers as i64), ("qlen", records.queue.len() as i64)]);
         drop(records);
         task();
     }
